@@ -22,7 +22,7 @@ from vlib.engine_d import Run, inj_recover
 from vlib.engine_k import crash_states, recover_from
 from vlib.par import run_shards
 from vlib.sched import make_schedule, reference_outcome, schedule_desc
-from vlib.spec import core_corpus, dag_spec, features, loop_spec
+from vlib.spec import core_corpus, dag_spec, features, loop_spec, syn_confluent_spec
 
 LEVEL = "exploration"
 SKIP = ("gate", "choice")
@@ -98,6 +98,7 @@ def shard_random(prop: str, tier: str, seed: int, n: int) -> dict[str, Any]:
         dag_spec(max_stages=6),
         dag_spec(max_stages=5, allow=("multi", "poll"), joins=("AND", "DISC", "NOFM")),
         loop_spec(max_j=2),
+        syn_confluent_spec(),
     )
 
     @hseed(seed)
